@@ -1,5 +1,5 @@
 """C03 - hit counts, percentages and oktas are what the hits imply."""
-from sa.rules import amount, wmo, metarize, rounding
+from sa.rules import amount, wmo, metarize, rounding, cropping
 
 LEVEL = 'other'
 
@@ -11,6 +11,9 @@ def check(ctx):
     metarize.code_assembly(ctx, 'C03-R4')
     wmo.okta2code_table(ctx, 'C03-R4')
     rounding.perc_rounding(ctx, 'C03-R5')
+    # R6: the total of measurements is that of the input: cropping above the MSA blanks first hits and VV hits (the
+    # measurement stays, as a non-detection) and removes only second and higher hits
+    cropping.crop_effects(ctx, 'C03-R6')
     ctx.extra['explanation'] = (
         'The count, percentage and okta cells are compared as provenance terms with the specification: per-ceilometer '
         'distinct time stamps summed over the distinct ceilometer names, ratio to the same count over the whole chunk, '
